@@ -200,9 +200,6 @@ func verifRelease(_ *Pool, m *Message) {
 	// later write is found when the object is handed out again
 	verifFill(m.bufferUnmarshal)
 	verifFill(m.origValueBuffer)
-	if m.msg.Token != nil {
-		verifFill(m.msg.Token)
-	}
 	st.unmarshalP = verifFirst(m.bufferUnmarshal)
 	st.valueP = verifFirst(m.origValueBuffer)
 }
